@@ -195,6 +195,7 @@ pub fn run_net(sc: &NetScenario) -> NetOutcome {
         .expect("runtime");
     let _ = alloc::take_panics();
     vnet::reset();
+    passage_protocol::verif::rt::signal::reset();
     let local = tokio::task::LocalSet::new();
     let out = local.block_on(&rt, run_net_async(sc));
     passage_protocol::verif::clock::set_wall(None);
@@ -242,6 +243,7 @@ async fn run_net_async(sc: &NetScenario) -> NetOutcome {
                 Err(e) => format!("Err({e})"),
             };
             let t = w2.lock().unwrap().now_ns();
+            w2.lock().unwrap().ev("listener", "returned", json!({"result": s}));
             *ld.borrow_mut() = Some((t, s));
         })
     } else {
@@ -303,7 +305,12 @@ async fn run_net_async(sc: &NetScenario) -> NetOutcome {
             let now = world.lock().unwrap().now_ns();
             world.lock().unwrap().ev("driver", "stop", json!({}));
             stop_ns = Some(now);
-            stop.cancel();
+            if sc.cfg.use_start {
+                // the application's own stop signal: the (simulated) interrupt
+                passage_protocol::verif::rt::signal::raise();
+            } else {
+                stop.cancel();
+            }
             continue;
         }
         let c = sc.clients[idx].clone();
@@ -334,7 +341,7 @@ async fn run_net_async(sc: &NetScenario) -> NetOutcome {
         let _ = t.await;
     }
     // and, if a stop was requested, for the listener to return (bounded by the cap)
-    if stop_ns.is_some() && !sc.cfg.use_start {
+    if stop_ns.is_some() {
         let left = sc.cap_ns.saturating_sub(world.lock().unwrap().now_ns());
         let _ = tokio::time::timeout(Duration::from_nanos(left.max(1)), async {
             while listen_done.borrow().is_none() {
